@@ -1,12 +1,48 @@
 # C20 registry entry: see lib/registry.py for the field meanings
-PROP = {'rule': 'TODO',
- 'assumptions': [],
+PROP = {'rule': 'rapid-generated histories of 1-5 slo-controller ConfigMap events (startup sync with/without a ConfigMap in the informer '
+         'cache, create, update, delete) driven through SLOCfgHandlerForConfigMapEvent.Create/Update/Delete; after every event the spec '
+         'of three nodes (two with random labels over keys a,b,c, one without labels) is computed with '
+         'NodeSLOReconciler.getNodeSLOSpec (with or without the old spec, as Reconcile does). One test function per section '
+         '(threshold, qos, cpuburst, system, hostapp): the focused section is absent / empty ({} null ...) / valid / malformed (13 '
+         'variants: syntax errors and wrong JSON types) / textually unchanged, the other four sections are background noise (incl. '
+         'malformed) and are not judged in that test. A valid section sets a random subset of the field paths of the strategy struct '
+         '(schema derived by reflection: pointers, by-value enums, nested objects, map, list of blocks, quantity, int-or-string; '
+         'explicit null, empty string, empty object/list, unknown keys, values outside the webhook ranges) at cluster level and in 0-4 '
+         'node entries whose selectors are matchLabels / matchExpressions / both / empty / null / absent / invalid and are mostly built '
+         'from the labels of the generated nodes so that they overlap. Oracle on the JSON text only: per leaf path, value of the FIRST '
+         'entry whose selector matches if that entry sets the path, else the cluster value, else the built-in default '
+         '(sloconfig.Default*Strategy marshalled; empty for qos and hostapp); absent section = defaults; malformed section = what the '
+         'same node had after the previous event. non-trivial = some judged event where >=2 entries match the node, the first two set '
+         'different paths (hostapp: different lists) and the cluster level sets a path one of them sets. distinct = FNV-64 of node '
+         'labels + all texts of the focused section.',
+ 'assumptions': ['"sets the field" is read on the JSON text: a key that is absent, null, "" for a by-value string field, {} for a map or '
+                 '[] for a list does not set anything; unknown keys are ignored',
+                 'a list (blkio blocks, host applications) set at a more specific layer may either replace the less specific list or be '
+                 'laid over it element by element (what the JSON overlay does): length and every leaf the top layer sets are binding, '
+                 'other leaves may be absent or inherited from the same index; an explicit []/null applications list in a matching '
+                 'host-application entry and an explicit zero totalNetworkBandwidth may be read as set or as not set',
+                 'the built-in default of the resource-QoS section is the empty strategy (per-class defaults are applied by koordlet); '
+                 'the extensions section is not judged (no extension plug-in is registered in this tree)',
+                 'nodes carry no network-bandwidth annotation (the documented per-node override of totalNetworkBandwidth is outside '
+                 'the statement); nothing is asserted about the event right after a ConfigMap delete (the statement is silent), '
+                 'later events are judged against what was observed then',
+                 'invalid selectors are limited to four shapes LabelSelectorAsSelector rejects (In without values, Exists with values, '
+                 'unknown operator, illegal label value)'],
  'units': [{'name': 'nodeslo',
             'pkg': 'pkg/slo-controller/nodeslo',
             'files': ['C20/c20_nodeslo_test.go'],
-            'tests': [{'run': 'TestVerifC20Threshold', 'quick': 1500, 'thorough': 10000},
-                      {'run': 'TestVerifC20ResourceQOS', 'quick': 1500, 'thorough': 10000},
-                      {'run': 'TestVerifC20CPUBurst', 'quick': 1500, 'thorough': 10000},
-                      {'run': 'TestVerifC20System', 'quick': 1500, 'thorough': 10000},
-                      {'run': 'TestVerifC20HostApp', 'quick': 1500, 'thorough': 10000}]}],
- 'manifest': {'technique': 'TODO', 'text': 'TODO', 'note': 'TODO'}}
+            'tests': [{'run': 'TestVerifC20Threshold', 'quick': 4000, 'thorough': 10000, 'shards': 6},
+                      {'run': 'TestVerifC20ResourceQOS', 'quick': 4000, 'thorough': 10000, 'shards': 6},
+                      {'run': 'TestVerifC20CPUBurst', 'quick': 4000, 'thorough': 10000, 'shards': 6},
+                      {'run': 'TestVerifC20System', 'quick': 4000, 'thorough': 10000, 'shards': 6},
+                      {'run': 'TestVerifC20HostApp', 'quick': 4000, 'thorough': 10000, 'shards': 6}]}],
+ 'manifest': {'technique': 'property-based testing (rapid): generated ConfigMap histories with reflection-driven strategy generators and a '
+                           'text-level reference model of the default < cluster < first-matching-entry layering',
+              'text': 'Generated-input search: histories of ConfigMap events are fed to the real event handler; after each event the '
+                      'NodeSLO spec of three nodes is computed by the reconciler and every leaf of the focused section is compared with '
+                      'a reference computed from the JSON text alone (independent selector matcher, no MergeCfg): first matching node '
+                      'entry, else cluster, else built-in default; absent section = defaults; unparsable section = previously delivered '
+                      'settings; a node that no entry selects must see only cluster and default values. Exploration, not proof: '
+                      'absence of violations over the sampled cases.',
+              'note': 'text-level reading of "sets the field" (null/""/{}/[] set nothing); lists may be replaced or overlaid '
+                      'element-wise; extensions and the node bandwidth annotation are out of scope; rapid\'s PRNG and shrinker'}}
